@@ -1,4 +1,4 @@
-import NomtModel.Store.GenFnCheck
+import NomtModel.Store.GenFnCheck2
 /-!
 # C02 (topic: translated functions — node indices inside a page, `core/src/trie_pos.rs`)
 -/
@@ -15,5 +15,32 @@ theorem T2_fn_node_indices (i : Nat) (hb : i < 2 ^ 63) :
 
 example : GenFn.sibling_index 62 = some 63 ∧ GenFn.sibling_index 125 = some 124 ∧ GenFn.parent_node_index 125 = some 61 ∧
     GenFn.parent_node_index 1 = none ∧ GenFn.bottom_node_index 62 = some 0 ∧ GenFn.bottom_node_index 61 = none := by decide
+
+/-- T2.fn-2 the METHODS `TriePosition::{is_root, depth_in_page, child_node_indices, is_first_layer_in_page, sibling_index}` of the CURRENT
+source (their `self` fields passed as arguments) are the mirrors of `Core/TriePos.lean` for every position whose depth fits `u16` and
+whose node index is below `2^62` — same values, same panic sites (`child_node_indices` outside layers 1…5) -/
+theorem T2_fn_position_methods (p : TriePos.Pos) (h : p.depth < 2 ^ 16) (hi : p.nodeIndex < 2 ^ 62) :
+    GenFn.tp_is_root p.depth = some p.isRoot ∧ GenFn.tp_depth_in_page p.depth = some p.depthInPage ∧
+    GenFn.tp_child_node_indices p.depth p.nodeIndex = p.childNodeIndices ∧
+    GenFn.tp_is_first_layer_in_page p.nodeIndex = some p.isFirstLayerInPage ∧
+    GenFn.tp_sibling_index p.nodeIndex = some p.siblingIndex :=
+  ⟨GenFnCheck.tp_is_root_eq p, GenFnCheck.tp_depth_in_page_eq p h, GenFnCheck.tp_child_node_indices_eq p h hi,
+   GenFnCheck.tp_is_first_layer_eq p (Nat.lt_trans hi (by decide)), GenFnCheck.tp_sibling_index_eq p (Nat.lt_trans hi (by decide))⟩
+
+/-- T2.fn-3 `ChildNodeIndices::{left, right, in_next_page}` of the current source -/
+theorem T2_fn_child_node_indices (l : Nat) (h : l < 2 ^ 63) :
+    GenFn.cni_left l = some (TriePos.cniLeft l) ∧ GenFn.cni_right l = some (TriePos.cniRight l) ∧
+    GenFn.cni_in_next_page l = some (TriePos.cniInNextPage l) := GenFnCheck.cni_eq l h
+
+/-- T2.fn-4 `ChildPageIndex::new` never panics and refuses exactly the indices above `MAX_CHILD_INDEX`; `child_page_index()` /
+`sibling_child_page_index()` of the current source are the mirrors (panic above the bottom layer of the page) -/
+theorem T2_fn_child_page_index (p : TriePos.Pos) (hi : p.nodeIndex < 2 ^ 63) (i : Nat) :
+    GenFn.child_page_index_new i = some (TriePos.cpiNew i) ∧ GenFn.tp_child_page_index p.nodeIndex = p.childPageIndex ∧
+    GenFn.tp_sibling_child_page_index p.nodeIndex = p.siblingChildPageIndex :=
+  ⟨GenFnCheck.child_page_index_new_eq i, GenFnCheck.tp_child_page_index_eq p, GenFnCheck.tp_sibling_child_page_index_eq p hi⟩
+
+example : GenFn.tp_depth_in_page 13 = some 1 ∧ GenFn.tp_depth_in_page 12 = some 6 ∧ GenFn.tp_child_node_indices 13 1 = some 4 ∧
+    GenFn.tp_child_node_indices 12 100 = none ∧ GenFn.tp_child_page_index 125 = some 63 ∧ GenFn.tp_child_page_index 61 = none ∧
+    GenFn.child_page_index_new 64 = some none ∧ GenFn.tp_is_first_layer_in_page 1 = some true ∧ GenFn.tp_is_first_layer_in_page 2 = some false := by decide
 
 end Nomt.C02
